@@ -310,3 +310,14 @@ bool claim_data_ok(Claim *c, int id) {
   return true;
 }
 }  // namespace verif_control
+
+// ---- REJECT-LEDGER control: a constant cap that is not in the ledger --------------------------------
+namespace verif_control {
+bool reject_new_bad(draco::DecoderBuffer *b, uint32_t *out) {
+  uint32_t n;
+  if (!draco::DecodeVarint(&n, b)) return false;
+  if (n > 777) return false;
+  *out = n;
+  return true;
+}
+}  // namespace verif_control
